@@ -47,10 +47,10 @@ ARGS = {
  "C09_m5": ["C09", "--archs", "sse2,avx512f", "--ops", "reduce_min", "--types", "u32,i32,i64"],
  # fourth round
  "C18_m3": ["C18"], "C16_m3": ["C16", "--archs", "sse2", "--ops", "cmul"],
- "C17_m3": ["C17", "--ops", "avg,avgr", "--types", "i8,i16,i32"], "C17_m4": ["C17", "--ops", "nearbyint_as_int"],
+ "C17_m3": ["C17", "--ops", "avg,avgr", "--types", "i8,i16,i32"], "C17_m4": ["C17", "--ops", "nearbyint_as_int,is_even"],
  "C12_m3": ["C12"], "C12_m4": ["C12"],
  "C04_m3": ["C04", "--archs", "avx,avx2", "--ops", "load_unaligned,load_aligned", "--types", "i8,i32,f32"],
- "C02_m4": ["C02", "--archs", "sse2,avx512f", "--ops", "fnms"], "C02_m5": ["C02", "--archs", "avx512f,sse2", "--ops", "ldexp,frexp"],
+ "C02_m4": ["C02", "--archs", "sse2,avx512f", "--ops", "fnms"], "C02_m5": ["C02", "--archs", "avx512f,sse2", "--ops", "ldexp"],
  "C06_m4": ["C06", "--archs", "sse2,avx2", "--ops", "batch_cast_to_f32,load_as_from_i32", "--types", "u32,f32"],
  "C06_m5": ["C06", "--archs", "sse4_1", "--ops", "batch_cast_to_f64", "--types", "u64,i64"],
  "C03_m4": ["C03", "--archs", "sse2,sse4_1", "--ops", "bool_eq,bool_neq", "--types", "f64,f32"],
